@@ -282,6 +282,49 @@ def run(pid, tier, seed):
         # cancellation inside the protocol back ends (waits of TBLS.KeyGen / TPS.KeyGen): harness/dkg, checks/dkg.py
         from checks import dkg
         backend_cases = dkg.run_backend_cancel(chk, tier, seed)
+        # a lone real Scheme (loud: real disc.Member; silent: real msg.Box) whose peers vanished, called with a context that is
+        # already over or ends almost at once; one child process per case, because a panic on a goroutine the library starts
+        # cannot be recovered by the caller (harness/core deadline.go)
+        dpath = os.path.join(chk.rundir(), "deadline.jsonl")
+        rc, out = vlib.run_harness("core", ["deadline"], dpath, timeout=900)
+        dcases = vlib.read_jsonl(dpath) if rc == 0 else []
+        if rc != 0 or len(dcases) < 30:
+            chk.violation("harness_deadline.txt", "deadline harness failed (exit %d, %d cases):\n%s" % (rc, len(dcases), out[-3000:]), no_input=True)
+        nbad = 0
+        for c in dcases:
+            if c["verdict"] != "err":
+                nbad += 1
+                what = "%s of a lone %s Scheme with context class %s: %s (%s)" % (
+                    c["op"], c["mode"], c["class"],
+                    {"crash": "the process died", "hang": "did not return", "ok": "reported success"}.get(c["verdict"], c["verdict"]), c["detail"][:300])
+                if nbad <= 3:
+                    chk.monitor_hit("", "deadline_%d.json" % nbad,
+                                    dict(what=what, case=c, replay="build/bin/core deadline-one -x %s,%s,%s" % (c["mode"], c["op"], c["class"])), what)
+                else:
+                    chk.cov["monitor_hits"] += 1
+        chk.cov["deadline_cases"] = dict(collections.Counter("%s/%s/%s" % (c["mode"], c["op"], c["verdict"]) for c in dcases))
+        backend_cases = backend_cases + dcases
+    if pid == "C12":
+        # admission is one critical section: K concurrent calls for one session name, held together inside the application's
+        # synchroniser factory (harness/core admission.go; one child process per case)
+        apath = os.path.join(chk.rundir(), "admission.jsonl")
+        rc, out = vlib.run_harness("core", ["admission"], apath, timeout=900)
+        acases = vlib.read_jsonl(apath) if rc == 0 else []
+        if rc != 0 or len(acases) < 12:
+            chk.violation("harness_admission.txt", "admission harness failed (exit %d, %d cases):\n%s" % (rc, len(acases), out[-3000:]), no_input=True)
+        nbad = 0
+        for c in acases:
+            if c["verdict"] != "good":
+                nbad += 1
+                what = "%d concurrent %s calls for one session name (%s): %s" % (c["k"], c["op"], "held together in the synchroniser factory"
+                                                                                  if c["where"] == "factory" else "started together", c["detail"][:400])
+                if nbad <= 3:
+                    chk.monitor_hit("", "admission_%d.json" % nbad,
+                                    dict(what=what, case=c, replay="build/bin/core admission-one -x %s,%d,%s" % (c["op"], c["k"], c["where"])), what)
+                else:
+                    chk.cov["monitor_hits"] += 1
+        chk.cov["admission_cases"] = dict(collections.Counter("%s/%s/%s" % (c["op"], c["where"], c["verdict"]) for c in acases))
+        backend_cases = backend_cases + acases
     chk.cov["evaluations"] = len(steps) + len(backend_cases)
     chk.cov["scenarios"] = len(scen)
     chk.cov["distinct_nontrivial"] = len(set(vlib.canon_hash([(st["op"], st.get("plan"), st.get("inject")) for st in sc["steps"]]) for sc in scen
